@@ -169,9 +169,17 @@ Definition close_inner (s : state) (now pto : Z) (r : close_reason) : state :=
     let s := set_close s true in
     set_st s (Closed r).
 
-(** [set_peer_params]: only the idle-timeout negotiation. *)
-Definition set_peer_params (s : state) (peer_idle_ms : option Z) : state :=
+(** [set_peer_params]: only the idle-timeout negotiation.  Since the repair of the stale idle
+    timer (known_findings.txt, fixed: C08 "stop the idle timer when the negotiated idle timeout
+    becomes disabled") the Idle timer is stopped when the negotiation yields "none";
+    [set_peer_params_prefix] is the code as found. *)
+Definition set_peer_params_prefix (s : state) (peer_idle_ms : option Z) : state :=
   set_idle_timeout s (negotiate (cfg_idle s) peer_idle_ms).
+Definition set_peer_params (s : state) (peer_idle_ms : option Z) : state :=
+  match negotiate (cfg_idle s) peer_idle_ms with
+  | None => set_t_idle (set_idle_timeout s None) None
+  | Some i => set_idle_timeout s (Some i)
+  end.
 
 (** * Received packets: what [handle_packet] found the packet to be *)
 Inductive pkt :=
